@@ -6,6 +6,20 @@ var _ = gosym.Options{}
 
 var props = []PropSpec{
 	{
+		ID: "C12", Level: "other",
+		Explanation: "bounded symbolic execution of DeepCast of both value libraries on a symbolic (value tree, type tree) pair (kinds from selectors, scalar payloads unconstrained) against the conformance reference B.4; program-level cast templates and the VM host boundary (SpawnSync argument validation) with symbolic payloads",
+		Harnesses: []HarnessSpec{
+			{Pkg: "homescript", Func: "VerifHarness_Cast", Quick: map[string]int{"depth": 1}, Thor: map[string]int{"depth": 2}, ThorPaths: 600000, ThorSecs: 1500, Require: []string{"returned"},
+				What: "DeepCast(v, T, allowCasts) for every (value shape, type shape) of the stated depth, both libraries: admitted iff the reference admits, admitted value equals the reference conversion"},
+			{Pkg: "homescript", Func: "VerifHarness_CastPrograms", Quick: map[string]int{}, Require: []string{"ran"},
+				What: "6 program templates x 2 back ends: a rejected `as` / `let x: T = <any>` / parse_json cast is catchable and later statements run unaffected"},
+			{Pkg: "homescript", Func: "VerifHarness_CastPath", Quick: map[string]int{}, Require: []string{"ran"},
+				What: "VM cast errors name the offending path (list index, object field, option inner)"},
+			{Pkg: "homescript", Func: "VerifHarness_HostBoundary", Quick: map[string]int{"depth": 1}, Require: []string{"called"},
+				What: "VM.SpawnSync refuses exactly the argument values that do not conform to the declared parameter type (value shapes depth 1 x leaf types)"},
+		},
+	},
+	{
 		ID: "C18", Level: "other",
 		Explanation: "the analyzer's own member tables (ast.<Type>.Fields) are executed in the engine with a selector over (type kind, member); each offered member is looked up on runtime values of both value libraries and called with arguments of the advertised types whose payloads (ints, floats, bools, indices) are unconstrained solver variables; index-taking operations are compared with the wrap/interrupt law on term level",
 		Harnesses: []HarnessSpec{
